@@ -21,6 +21,7 @@ import (
 	"github.com/anyproto/any-sync/commonspace/headsync/statestorage"
 	"github.com/anyproto/any-sync/commonspace/object/acl/list"
 	"github.com/anyproto/any-sync/commonspace/object/tree/objecttree"
+	"github.com/anyproto/any-sync/commonspace/object/tree/treechangeproto"
 	"github.com/anyproto/any-sync/commonspace/object/tree/treestorage"
 	"github.com/anyproto/any-sync/commonspace/spacestorage"
 	"github.com/anyproto/any-sync/consensus/consensusproto"
@@ -343,4 +344,18 @@ func (s *memSpace) CreateTreeStorage(ctx context.Context, payload treestorage.Tr
 
 func (s *memSpace) CreateStorageWithDeferredCreation(ctx context.Context, payload treestorage.TreeStorageCreatePayload) (objecttree.Storage, error) {
 	return s.CreateTreeStorage(ctx, payload)
+}
+
+// NewMemTreeStorage returns a stand-alone in-memory tree storage holding only root (for checks that drive an
+// object tree directly, without a space around it).
+func NewMemTreeStorage(root *treechangeproto.RawTreeChangeWithId) objecttree.Storage {
+	heads := newMemHeads()
+	seq := &atomic.Uint64{}
+	t := &memTree{id: root.Id, heads: heads, changes: map[string]objecttree.StorageChange{}, orders: map[string]string{}, addSeq: seq}
+	first := objecttree.VerifFirstOrderId()
+	t.changes[root.Id] = objecttree.StorageChange{RawChange: root.RawChange, Id: root.Id, SnapshotCounter: 1, OrderId: first, TreeId: root.Id, ChangeSize: len(root.RawChange)}
+	t.orders[first] = root.Id
+	f := false
+	_ = heads.UpdateEntry(context.Background(), headstorage.HeadsUpdate{Id: root.Id, Heads: []string{root.Id}, CommonSnapshot: &root.Id, IsDerived: &f})
+	return t
 }
